@@ -36,6 +36,45 @@ pub fn rd_dt(dt: &DateTime) -> i128 {
     (z.timestamp() as i128 + tl::EPOCH_1970_S as i128) * tl::NS + z.nano() as i128
 }
 
+/// Canonical form of a DateTime as seen by *every* family of observers: the UTC accessors
+/// (as_ymdhms / as_hms, which read the stored fields directly), the offset-0 getters, and the
+/// offset-0 rendering must all agree with the instant. A value that denotes the right instant
+/// but is stored non-normalised (e.g. 24:00:00 of the previous day) fails here.
+pub fn canonical_dt(dt: &DateTime) -> Result<(), String> {
+    let i = rd_dt(dt);
+    let f = tl::fields(i);
+    let z = dt.set_offset(Offset::Fixed(0));
+    let want = (f.year as i32, f.month, f.dom, f.hour, f.minute, f.second);
+    // only the offset-0 copy is read through as_ymdhms/as_hms: whether those accessors report UTC
+    // or local fields for a value that carries an offset is not stated anywhere
+    for (name, v) in [("value.set_offset(0)", &z)] {
+        if v.as_ymdhms() != want {
+            return Err(format!("{}.as_ymdhms() = {:?}, instant is {:?}", name, v.as_ymdhms(), want));
+        }
+        if v.as_hms() != (f.hour, f.minute, f.second) || v.as_ymd() != (f.year as i32, f.month, f.dom) {
+            return Err(format!("{}.as_hms()/as_ymd() = {:?} {:?}, instant is {:?}", name, v.as_hms(), v.as_ymd(), want));
+        }
+    }
+    let got = (z.year(), z.month(), z.day(), z.hour(), z.minute(), z.second());
+    if got != want {
+        return Err(format!("getters at offset 0 = {:?}, instant is {:?}", got, want));
+    }
+    let text = z.format("yyyy-MM-dd HH:mm:ss.nnnnn");
+    let want_text = format!(
+        "{}-{:02}-{:02} {:02}:{:02}:{:02}.{:09}",
+        if f.year < 0 { format!("-{:04}", -f.year) } else { format!("{:04}", f.year) },
+        f.month, f.dom, f.hour, f.minute, f.second, f.subsec
+    );
+    if text != want_text {
+        return Err(format!("format at offset 0 = {:?}, instant is {:?}", text, want_text));
+    }
+    let t = Time::from(z);
+    if t.as_nanos() as i128 != f.day_ns as i128 {
+        return Err(format!("Time::from(value at offset 0).as_nanos() = {}, instant has {}", t.as_nanos(), f.day_ns));
+    }
+    Ok(())
+}
+
 pub fn off_of_dt(dt: &DateTime) -> Offset {
     dt.get_offset()
 }
